@@ -10,8 +10,12 @@ Acts == {<<NOOP, 0>>, <<7, 0>>} \cup {<<a, t>> : a \in {WAITA, TERMINATE, KILL},
 Third == IF ThirdActs = "All" THEN Acts ELSE {<<NOOP, 0>>, <<7, 0>>, <<KILL, INF>>, <<WAITA, 0>>}
 Triples == {<<a, b, c>> : a \in Acts, b \in Acts, c \in Third}
 
+\* fork mode: every combination in the thorough tier, two representatives in the quick tier
 StartOpts == {[dl |-> d, stop |-> NoStop, nb |-> FALSE, rin |-> 0, rout |-> 0, rerr |-> 0, input |-> -1,
                term |-> t, self |-> sf, prog |-> "/bin/c", fork |-> fk] : d \in DlOpts, t \in 0..2, sf \in BOOLEAN, fk \in BOOLEAN}
+             \ (IF ThirdActs = "All" THEN {} ELSE
+                 {[dl |-> d, stop |-> NoStop, nb |-> FALSE, rin |-> 0, rout |-> 0, rerr |-> 0, input |-> -1,
+                   term |-> t, self |-> sf, prog |-> "/bin/c", fork |-> TRUE] : d \in DlOpts, t \in 1..2, sf \in BOOLEAN})
 
 Next ==
   \/ ncalls = 0 /\ New(1)
